@@ -11,7 +11,7 @@ def key_fn(case, obs, verdict):
         f = f[1:]
     why = verdict.replace("BAD:", "").split(" ")
     kind = f[0]
-    sub = f[1] if kind in ("ammo", "pfx", "conv") else ""
+    sub = f[1] if kind in ("ammo", "pfx", "trunc", "conv") else ""
     site = why[0]
     what = "-".join(why[1:3])[:40]
     if hostile and what in ("outcome-oom", "outcome-hang", "outcome-crash"):
